@@ -10,7 +10,17 @@ CheckPad(r) ==
 CheckUnpad(r) ==
   LET u == Unpad([i \in 1..r.pre |-> 0] \o r.block, r.bs)
   IN IF u.ok THEN r.ret = 0 /\ r.len = u.len ELSE r.ret = -1
+\* lengths beyond 2^32 (TLC integers are 32-bit: exact arithmetic on BigNat): padded length = len + (bs - len mod bs); refused iff it
+\* exceeds the capacity; marker at buf[len], zeros up to the padded length, the byte behind it untouched; unpadding returns len
+BN == INSTANCE BigNat
+HugePlen(r) == LET len == BN!BNFromBytes(r.len)  m == BN!BNMod(len, BN!Small(r.bs)) IN BN!BNAdd(len, BN!BNSub(BN!Small(r.bs), m))
+CheckPadHuge(r) ==
+  LET pl == HugePlen(r)  cap == BN!BNFromBytes(r.cap)
+  IN IF BN!BNCmp(pl, cap) > 0 THEN r.ret = -1
+     ELSE r.ret = 0 /\ BN!BNFromBytes(r.plen) = pl /\ r.marker_ok /\ r.zeros_ok /\ r.after_ok
 Check(r) == CASE r.op = "pad" -> CheckPad(r) [] r.op = "unpad" -> CheckUnpad(r)
+              [] r.op = "pad_huge" -> CheckPadHuge(r)
+              [] r.op = "unpad_huge" -> r.ret = 0 /\ r.ulen = r.len
 Bad == {i \in 1..Len(Recs) : ~Check(Recs[i])}
 ASSUME PrintT(<<"ORACLE", Len(Recs), ToJson(SetToSeq(Bad))>>)
 =============================================================================
